@@ -316,7 +316,7 @@ func (m *clientHelloMsg) MakeLog() *ClientHello {
 
 	ch.OcspStapling = m.ocspStapling
 	ch.TicketSupported = m.ticketSupported
-	ch.SecureRenegotiation = m.secureRenegotiationSupported && len(m.secureRenegotiation) > 0
+	ch.SecureRenegotiation = m.secureRenegotiationSupported
 
 	ch.ServerName = m.serverName
 	ch.Scts = m.scts
@@ -374,7 +374,7 @@ func (m *serverHelloMsg) MakeLog() *ServerHello {
 	sh.CompressionMethod = CompressionMethod(m.compressionMethod)
 	sh.OcspStapling = m.ocspStapling
 	sh.TicketSupported = m.ticketSupported
-	sh.SecureRenegotiation = m.secureRenegotiationSupported && len(m.secureRenegotiation) > 0
+	sh.SecureRenegotiation = m.secureRenegotiationSupported
 	extensionIdentifiers, success := m.extractExtensions()
 	if success {
 		sh.ExtensionIdentifiers = extensionIdentifiers
